@@ -1,6 +1,6 @@
 (* C17: example and counter-example schemas (all facts here are closed computations). *)
 From Coq Require Import String.
-From Gv Require Import lib.Bytes lib.Gql C17.Util C17.ValueSyntax C17.Base C17.Model C17.Spec.
+From Gv Require Import lib.Bytes lib.Gql C17.Util C17.ValueSyntax C17.Base C17.Model C17.ModelV0 C17.Spec.
 Open Scope N_scope.
 Local Open Scope string_scope.
 
@@ -84,6 +84,17 @@ Definition exact_of_generate_b (S : schema) : bool :=
 Definition typerefs_of_generate_b (S : schema) : bool :=
   match generate S with Some D => typeref_faithful_b S D | None => false end.
 
+(* the same checks on the functions as they were before the repairs (ModelV0.v) *)
+Definition roundtrip_b_v0 (S : schema) : bool :=
+  match generate_v0 S with
+  | Some D => match convert_v0 D with COk C => schema_equiv_b C (with_base S) | _ => false end
+  | None => false
+  end.
+Definition exact_of_generate_b_v0 (S : schema) : bool :=
+  match generate_v0 S with Some D => complete_exact_b S D | None => false end.
+Definition typerefs_of_generate_b_v0 (S : schema) : bool :=
+  match generate_v0 S with Some D => typeref_faithful_b S D | None => false end.
+
 Ltac vm := vm_compute; repeat split; reflexivity.
 
 Lemma ex_clean_ok :
@@ -91,21 +102,22 @@ Lemma ex_clean_ok :
   /\ roundtrip_b ex_clean = true /\ exact_of_generate_b ex_clean = true /\ typerefs_of_generate_b ex_clean = true.
 Proof. vm. Qed.
 
+(* --- repaired: the statement about the pre-fix functions is historical; today the schema is inside the claims --- *)
 Lemma w_interface_implements_ok :
-  wf_schema w_interface_implements = true /\ lossy_clauses w_interface_implements = [#"interface-implements"]
-  /\ roundtrip_b w_interface_implements = false /\ exact_of_generate_b w_interface_implements = true.
+  wf_schema w_interface_implements = true /\ roundtrip_b_v0 w_interface_implements = false
+  /\ lossy_clauses w_interface_implements = [] /\ roundtrip_b w_interface_implements = true.
 Proof. vm. Qed.
 Lemma w_repeatable_ok :
-  wf_schema w_repeatable = true /\ lossy_clauses w_repeatable = [#"repeatable"]
-  /\ roundtrip_b w_repeatable = false /\ exact_of_generate_b w_repeatable = true.
+  wf_schema w_repeatable = true /\ roundtrip_b_v0 w_repeatable = false
+  /\ lossy_clauses w_repeatable = [] /\ roundtrip_b w_repeatable = true.
 Proof. vm. Qed.
 Lemma w_inputvalue_deprecated_ok :
-  wf_schema w_inputvalue_deprecated = true /\ lossy_clauses w_inputvalue_deprecated = [#"inputvalue-deprecated"]
-  /\ roundtrip_b w_inputvalue_deprecated = false /\ exact_of_generate_b w_inputvalue_deprecated = true.
+  wf_schema w_inputvalue_deprecated = true /\ roundtrip_b_v0 w_inputvalue_deprecated = false
+  /\ lossy_clauses w_inputvalue_deprecated = [] /\ roundtrip_b w_inputvalue_deprecated = true.
 Proof. vm. Qed.
 Lemma w_specified_by_ok :
-  wf_schema w_specified_by = true /\ lossy_clauses w_specified_by = [#"specified-by"]
-  /\ roundtrip_b w_specified_by = false /\ exact_of_generate_b w_specified_by = true.
+  wf_schema w_specified_by = true /\ roundtrip_b_v0 w_specified_by = false
+  /\ lossy_clauses w_specified_by = [] /\ roundtrip_b w_specified_by = true.
 Proof. vm. Qed.
 Lemma w_one_of_ok :
   wf_schema w_one_of = true /\ lossy_clauses w_one_of = [#"one-of"] /\ roundtrip_b w_one_of = false.
@@ -119,15 +131,18 @@ Lemma w_reason_block_quote_ok :
   /\ roundtrip_b w_reason_block_quote = false.
 Proof. vm. Qed.
 Lemma w_reason_null_ok :
-  wf_schema w_reason_null = true /\ lossy_clauses w_reason_null = [#"reason-null"] /\ generate w_reason_null = None.
+  wf_schema w_reason_null = true /\ generate_v0 w_reason_null = None
+  /\ lossy_clauses w_reason_null = [] /\ exact_of_generate_b w_reason_null = true /\ roundtrip_b w_reason_null = true.
 Proof. vm. Qed.
 Lemma w_block_trailing_quote_ok :
   wf_schema w_block_trailing_quote = true /\ lossy_clauses w_block_trailing_quote = [#"block-string-reprint"]
   /\ exact_of_generate_b w_block_trailing_quote = false /\ roundtrip_b w_block_trailing_quote = false.
 Proof. vm. Qed.
 Lemma w_name_collision_ok :
-  wf_schema w_name_collision = true /\ lossy_clauses w_name_collision = [#"name-collision"]
-  /\ typerefs_of_generate_b w_name_collision = false /\ exact_of_generate_b w_name_collision = false.
+  wf_schema w_name_collision = true
+  /\ typerefs_of_generate_b_v0 w_name_collision = false /\ exact_of_generate_b_v0 w_name_collision = false
+  /\ lossy_clauses w_name_collision = [] /\ typerefs_of_generate_b w_name_collision = true
+  /\ exact_of_generate_b w_name_collision = true /\ roundtrip_b w_name_collision = true.
 Proof. vm. Qed.
 Lemma w_builtin_redeclared_ok :
   wf_schema w_builtin_redeclared = true /\ lossy_clauses w_builtin_redeclared = [#"builtin-redeclared"]
@@ -139,6 +154,6 @@ Lemma w_root_invented_ok :
 Proof. vm. Qed.
 
 Lemma roundtrip_refuted_proof : exists S, wf_schema S = true /\ roundtrip_b S = false.
-Proof. exists w_interface_implements. split; apply w_interface_implements_ok. Qed.
+Proof. exists w_one_of. split; apply w_one_of_ok. Qed.
 Lemma complete_exact_refuted_proof : exists S, wf_schema S = true /\ exact_of_generate_b S = false.
 Proof. exists w_builtin_redeclared. split; apply w_builtin_redeclared_ok. Qed.
